@@ -25,6 +25,7 @@ let () = each_line (fun l ->
     let ops = ref [] in           (* reversed *)
     let reads = ref 0 and nclear = ref 0 and nerase = ref 0 and dup = ref false and nullary = ref false
     and multiar = ref false and finnorule = ref false and read_after_clear = ref false and maxlive = ref 0 in
+    let bystander = ref false in
     let seen : (int * int) list ref = ref [] in   (* symbol, arity *)
     let note_rule (r : rule) =
       let s = int_of_n r.sym and a = List.length r.ch in
@@ -35,6 +36,9 @@ let () = each_line (fun l ->
     for _ = 1 to n do
       match word t with
       | "A" | "T" -> let r = read_rule t in note_rule r; ops := Add r :: !ops
+      | "Y" | "W" -> bystander := true                                  (* copy made / read-only call: no effect on the automaton *)
+      | "Z" -> ignore (read_rule t); bystander := true                  (* rule added to the COPY *)
+      | "H" -> ignore (num t)
       | "F" -> let q = n_of_int (num t) in ops := SetFinal q :: !ops
       | "G" -> let qs = read_nums t in ops := SetFinals qs :: !ops
       | "E" -> incr nerase; ops := EraseFinals :: !ops
@@ -73,6 +77,6 @@ let () = each_line (fun l ->
       | w -> failwith ("model: unknown step " ^ w)
     done;
     (match List.rev !fails with [] -> "OK" | [g] -> "FAIL " ^ g | g :: r -> "FAIL " ^ g ^ " also=" ^ String.concat "," r)
-    ^ Printf.sprintf " reads=%d maxlive=%d" !reads !maxlive
+    ^ Printf.sprintf " reads=%d maxlive=%d" !reads !maxlive ^ (if !bystander then " bystander" else "")
     ^ (if !dup then " dup" else "") ^ (if !nullary then " nullary" else "") ^ (if !multiar then " multiarity" else "")
     ^ (if !finnorule then " final_without_rule" else "") ^ (if !read_after_clear then " read_after_clear" else ""))
